@@ -417,7 +417,8 @@ def finish(pid, prop, tier, seed, st, t0, extra_cov):
                 json.dump(v, f, indent=1)
             print('VIOLATION property=%s replay=%s' % (pid, os.path.relpath(path, ROOT)))
             print('    %s %s [%s]: observed %s, expected %s (%s)\n    request: %s' % (v['cfg'], v['op'], v['mode'], v['observed'][:200], v['expected'][:200], v['why'], v['request'][:400]))
-        print('[%s] %d violating events in total (%d distinct op/cfg/mode shown)' % (pid, st['violations'], len(new_viol)))
+        byop = Counter(v['op'] for v in new_viol)
+        print('[%s] %d violating events in total; distinct (op, cfg, mode) combinations: %d; by op: %s' % (pid, st['violations'], len(new_viol), dict(byop)))
         return 1
     if problems:
         for p in problems[:10]:
